@@ -9,7 +9,7 @@ from ref import calendar as cal
 PID = "C07"
 LEVEL = "model_checking"
 RULE = (
-    "(a) window matching: a pool of 16 range()/cron() specifications (daily, wrapping, nested, dated, multi-day dated, mm/dd, "
+    "(a) window matching: a pool of 18 range()/cron() specifications (daily, wrapping, nested, dated, multi-day dated, mm/dd, mm/dd windows wrapping over the new year, "
     "weekday, sunrise/sunset with offsets, now-relative, range(now, now), sub-second wrap around midnight, today/tomorrow, cron "
     "hour range, cron step/weekday, cron single minute), each plain and 'not'-prefixed: all single specs, all ordered pairs, all "
     "unordered triples (thorough: all ordered triples and unordered quadruples) x every evaluation time derived from the list "
@@ -17,7 +17,7 @@ RULE = (
     "TrigTime.timer_active_check on the real code against an independent matcher (ref/calendar.py): (no positive spec or some "
     "positive spec matches) and no negative spec matches; end points inclusive; wrap-around; cron fields as crontab. "
     "(b) through the decorators, in a fresh Home Assistant on the virtual clock, both subsystems, both decorator orders, event / "
-    "state / time triggers: (b1) 26 specification lists x the wall clock set to each derived evaluation time -> the function "
+    "state / time triggers: (b1) 28 specification lists x the wall clock set to each derived evaluation time -> the function "
     "runs iff the matcher says so (for a time trigger the evaluation time is trigger_time); (b2) every sequence of 4 occurrences "
     "with gaps {hold_off-1, hold_off+1} s x every pass/fail pattern of the @state_active expression (over the watched entity "
     "with .old and .old.<attribute>, an unwatched gate entity, an undefined entity, and expressions whose false value is 0, '' or "
@@ -55,11 +55,14 @@ POOL = [
     "range(06/15 0:00, 06/15 23:59:59.999999)",
     "range(23:59:59.5, 0:00:00.5)",
     "range(today 11:00, tomorrow 11:00)",
+    "range(12/20, 01/05)",
+    "range(12/31 22:00, 1/1 2:00)",
 ]
+NY_DAYS = [dt.date(2019, 12, 31), dt.date(2020, 1, 1), dt.date(2019, 12, 19)]
 
 
 def signed(tier):
-    pool = POOL if tier == "thorough" else POOL[:13] + POOL[14:15]
+    pool = POOL if tier == "thorough" else POOL[:13] + POOL[14:15] + POOL[16:17]
     return [s for p in pool for s in (p, "not " + p)]
 
 
@@ -201,6 +204,8 @@ def check_list(res, specs, tier="thorough"):
     f = fn_setup()
     # quick: unordered triples are evaluated on the startup day only, singles and pairs on all three days
     days = DAYS if (tier == "thorough" or len(specs) < 3) else DAYS[:1]
+    if any("12/" in sp for sp in specs):
+        days = list(days) + (NY_DAYS if (tier == "thorough" or len(specs) < 3) else NY_DAYS[:2])  # windows that wrap over the new year
     for t in eval_times(specs, STARTUP, f["loc"], days=days):
         want = active(specs, t, STARTUP, f["loc"])
         got = impl_active(specs, t)
@@ -226,6 +231,7 @@ B1_LISTS = [
     ["range(mon 9:00, mon 17:00)"], ["range(23:59:59.5, 0:00:00.5)"], ["range(today 11:00, tomorrow 11:00)", "not range(22:00, 6:30)"],
     ["range(06/15 0:00, 06/15 23:59:59.999999)", "not cron(* 6-10 * * *)"], [],
     ["range(12:00, 13:00)", "range(8:00, 22:00)", "not range(12:00, 13:00)"],
+    ["range(10:00:00, 11:00:00)"], ["not range(11:00:00, 11:00:00)"],
 ]
 KINDS = ["event", "state", "time"]
 ORDERS = ["trigger_first", "guards_first"]
@@ -251,7 +257,9 @@ def run_b1(specs, t_eval, kind, order, legacy):
     # the time trigger needs the world to start before its instant; the others start exactly at the evaluation time
     lead = 1.0 if kind == "time" else 0.0
     start_utc = cal.real(t_eval) - dt.timedelta(seconds=lead)
-    w = World({"hello.py": "x = 1\n"}, legacy=legacy, start_utc=start_utc)
+    # for a time trigger the clock creeps 10 us per callback: the function wakes up a little after the instant, and the window
+    # must still be judged at the trigger time
+    w = World({"hello.py": "x = 1\n"}, legacy=legacy, start_utc=start_utc, tick=1e-5 if kind == "time" else 0.0)
     try:
         w.hass.states.async_set("pyscript.v", "0")
         w.settle()
